@@ -367,6 +367,11 @@ def run_scenario(ctx, kind, event_type, behaviour, armed_at, mode="call"):
             if got is not None and snaps and "snapshot_error" not in snaps[-1]:
                 ctx.count("state_transfers_compared")
                 want = snaps[-1]
+                if behaviour == "take_owner_gone" and took and want["cap"]:
+                    # the owner was removed from the session manager while the addon held the flow; a stray reference
+                    # (e.g. the traceback of an injected failure) may keep the object alive for the main process, but the
+                    # other side can only resolve owners the manager still knows: the expectation is "no owner"
+                    want = dict(want, cap=want["cap"][:3] + (None, None))
                 if want["cap"] and want["cap"][4] is not None and want["cap"][3] is None:
                     ctx.count("session_only_capdata")
                 if addon.injected and not got["meta"].get("response_injected"):
